@@ -284,8 +284,18 @@ def updName (e : Ev) (a : Args) : String :=
 def updArgs (a : Args) : Args :=
   { a with peer := none, peers := match a.peer with | some p => some p | none => a.peers }
 
+/-- the `args` of the event that is PASSED ON: as `updArgs`, except that a list already stored under `Peers` (the
+peer union written by the communication summarization) is put back after the helper copy was taken -/
+def updArgsOut (a : Args) : Args :=
+  match a.peer, a.peers with
+  | some _, some (.list v) => { a with peer := none, peers := some (.list v) }
+  | _, _ => updArgs a
+
 /-- the original event after `event_updates` (it is mutated in place and passed on) -/
 def upd (e : Ev) (a : Args) : Ev := { e with name := updName e a, args := some (updArgs a) }
+
+/-- the original event as it is passed on (mutated in place; the helper is a copy taken from `upd`) -/
+def updOut (e : Ev) (a : Args) : Ev := { e with name := updName e a, args := some (updArgsOut a) }
 
 /-- the `Peers` key of the helper: from `args`, `[]` for send-data names, from `Recv_<n>_` in the name, or absent -/
 def helperPeers (name : String) (a' : Args) : Except Err (Option (List Int)) :=
@@ -327,8 +337,8 @@ def prepare (e : Ev) : Except Err (List Ev) :=
   | none => pure [e]
   | some a => do
     match ← helperData e a with
-    | none => pure [upd e a]
-    | some h => pure [upd e a, mkHelper (upd e a) h]
+    | none => pure [updOut e a]
+    | some h => pure [updOut e a, mkHelper (upd e a) h]
 
 def prepareAll : List Ev → Except Err (List Ev)
   | [] => pure []
